@@ -66,7 +66,7 @@ def run(prog, R):
         gt = find_call(g, 'policy::BufPolicy::grow_to')
         rs_ = find_call(g, 'buffer_redux::BufReader::reserve')
         if len(gt) != 1 or len(rs_) != 1:
-            R.add('GROW-2', g, 'shape', False, site(g, g.span['lo']), 'expected one grow_to and one reserve call')
+            R.undecided('GROW-2', g, 'shape', site(g, g.span['lo']), 'expected one grow_to and one reserve call')
             continue
         (gb, gtt), (rb, rtt) = gt[0], rs_[0]
         a = roots_of(g, gtt.args[1], du)
@@ -241,7 +241,37 @@ def run(prog, R):
                 if s.k == 'assign' and s.place.local == 0 and s.rv.k == 'agg' and s.rv.j.get('adt', '').endswith('::Reader'):
                     agg = s
         if agg is None:
-            R.add('GROW-6', sp, 'shape', False, site(sp, sp.span['lo']), 'set_policy does not build a Reader aggregate [UNDECIDED]')
+            # the reader is assembled by a private helper: follow the call that produces the result (one level)
+            rs0 = roots_of(sp, Place({'l': 0, 'p': []}))
+            helper = None
+            if len(rs0) == 1 and rs0[0][0] == 'call' and not rs0[0][-1]:
+                hb = prog.local_callee_body(rs0[0][1].callee)
+                if hb is not None:
+                    for blk in hb.blocks:
+                        for s2 in blk.stmts:
+                            if s2.k == 'assign' and s2.place.local == 0 and s2.rv.k == 'agg' and s2.rv.j.get('adt', '').endswith('::Reader'):
+                                helper = (hb, s2, rs0[0][1])
+            if helper is not None:
+                hb, hagg, hcall = helper
+                for name, op in zip(hagg.rv.j['fields'], hagg.rv.ops):
+                    rs = roots_of(hb, op)
+                    ok = False
+                    src = [(r[0], r[1] if r[0] == 'arg' else '') for r in rs]
+                    if len(rs) == 1 and rs[0][0] == 'arg' and not rs[0][-1] and rs[0][1] - 1 < len(hcall.args):
+                        cr = roots_of(sp, hcall.args[rs[0][1] - 1])
+                        if name == 'buf_policy':
+                            ok = len(cr) == 1 and cr[0][0] == 'arg' and cr[0][1] == 2 and not cr[0][-1]
+                        else:
+                            ok = len(cr) == 1 and cr[0][0] == 'arg' and cr[0][1] == 1 and [x[1] for x in cr[0][-1]] == [name]
+                        src = [(r[0], r[1] if r[0] == 'arg' else '', [x[1] for x in r[-1]]) for r in cr]
+                    R.add('GROW-6', sp, 'field:%s' % name, ok, site(sp, hcall.line),
+                          '%s <- %s (through %s): %s' % (name, src, hb.key, 'the field of the old reader' if ok else 'NOT the field of the old reader: re-initialised, the stream state is lost'))
+                continue
+            ctor = [t.callee.target_path() for _, t in sp.calls() if t.callee and (t.callee.name in ('with_capacity', 'new', 'from_path', 'with_cap_and_policy', 'with_capacity_and_policy') or 'BufReader::with_capacity' in t.callee.path)]
+            if ctor:
+                R.add('GROW-6', sp, 'keeps-the-buffer', False, site(sp, sp.span['lo']), 'set_policy builds a new reader / buffer (%s): buffered data, offsets and state of the stream are lost' % ctor)
+            else:
+                R.undecided('GROW-6', sp, 'shape', site(sp, sp.span['lo']), 'set_policy does not build a Reader aggregate: not judged')
             continue
         for name, op in zip(agg.rv.j['fields'], agg.rv.ops):
             rs = roots_of(sp, op)
@@ -493,7 +523,7 @@ def aff_rules(prog, R):
         try:
             paths = sym_paths(b, fsyms)
         except Undecided as e:
-            R.add(rid, b, 'UNDECIDED', False, site(b, b.span['lo']), 'policy body outside the affine fragment: %s' % e)
+            R.undecided(rid, b, 'UNDECIDED', site(b, b.span['lo']), 'policy body outside the affine fragment: %s' % e)
             continue
         if kind == 'std':
             T0 = 1 << 23
